@@ -125,13 +125,15 @@ class Evaluator:
         hist = self.zp.submit(A, {"kind": "history", "ops": ops})["records"]
         self.stats.inc("histories")
         self.stats.inc("steps", len(ops))
+        # full event log digest of the history child: statuses, outputs, every dump, fault sites
+        hist_digest = canon.digest(json.dumps(hist, sort_keys=True))
         cur = {}            # handle -> current dump in the history
         recipe = {}         # handle -> list of normalised ops
         poisoned = set()
         origin = {}         # handle -> "read" | "build"
         tainted = set()     # sets returned by a poisoned object: their recipe is not valid, nothing about them is judged
         prev_on_obj = {}    # slot -> (outcome, doc family)
-        info = {"precondition_failed": None, "judged": 0}
+        info = {"precondition_failed": None, "judged": 0, "hist_digest": hist_digest, "ref_digests": []}
 
         def verdict(cls, i, lhs, rhs, detail=""):
             op = ops[i]
@@ -252,6 +254,7 @@ class Evaluator:
                     self.stats.inc("reuse_after_" + prev_on_obj[slot][0])
                 prev_on_obj[slot] = (st, op.get("cls"))
             r = [self.ref(h, rops, handle) for h in refs]
+            info["ref_digests"].append(canon.digest(json.dumps(r, sort_keys=True)))
 
             def same(a, b):
                 if a["status"] != b["status"] or a.get("exc") != b.get("exc"):
